@@ -286,6 +286,7 @@ fn kinds_for(scenario: &str, r: &mut Rng) -> Vec<ColKind> {
 			"reindex" => if i == 0 { ColKind::HashUniform } else { *r.pick(&[ColKind::HashUniform, ColKind::Hash]) },
 			"tree" | "treelock" => if i == 0 { tree_kind(r) } else { *r.pick(&[ColKind::Hash, ColKind::Btree]) },
 			"admin" => if r.chance(1, 3) { tree_kind(r) } else { *r.pick(&any_kv) },
+			"migrate" => *r.pick(&[ColKind::Hash, ColKind::Hash, ColKind::HashPreimage, ColKind::HashRc, ColKind::HashUniform, ColKind::Btree]),
 			_ => {
 				if r.chance(1, 8) {
 					tree_kind(r)
@@ -584,6 +585,32 @@ fn gen_ops(r: &mut Rng, cfg: &RunCfg, tier: Tier, big_max: u32) -> Vec<Op> {
 		};
 		pipe.apply(&op);
 		ops.push(op);
+	}
+	if scenario == "migrate" {
+		let mut dest = Vec::new();
+		for c in &cfg.cols {
+			let (k, comp) = match c.kind {
+				ColKind::Btree | ColKind::BtreeRc => (c.kind, c.compression),
+				ColKind::HashUniform => (ColKind::HashUniform, *r.pick(&[0u8, 1, 2])),
+				_ =>
+					if r.chance(2, 3) {
+						(*r.pick(&[ColKind::Hash, ColKind::HashPreimage, ColKind::HashRc]), *r.pick(&[0u8, 1, 2]))
+					} else {
+						(c.kind, c.compression)
+					},
+			};
+			dest.push((k.name(), comp));
+		}
+		let force: Vec<u8> = (0..cfg.cols.len() as u8).filter(|c| !cfg.cols[*c as usize].kind.is_btree() && r.chance(1, 4)).collect();
+		ops.push(Op::Migrate { dest, overwrite: r.chance(1, 4), force, pending: r.chance(1, 3) });
+		// a little more history on the migrated database
+		for _ in 0..r.below(6) {
+			if r.chance(1, 2) {
+				ops.push(Op::Commit(gen_tx(r, cfg, big_max, &mut tree_state)));
+			} else {
+				ops.push(Op::Step(pipe.pick_stage(r)));
+			}
+		}
 	}
 	ops
 }
